@@ -1,7 +1,7 @@
 (* Entry points of the executable model, by name.  Used both by the extracted
    OCaml driver and by vm_compute in generated cases files. *)
 From Coq Require Import ZArith QArith List String Bool.
-From SKC Require Import Model.Val Base.QBool Base.QList Base.QRank Model.Dominance Model.Agg Model.Electre Model.Result Model.Select Model.Transform.
+From SKC Require Import Model.Val Base.QBool Base.QList Base.QRank Model.Dominance Model.Agg Model.Electre Model.Result Model.Select Model.Transform Model.Weights.
 Import ListNotations.
 Local Open Scope string_scope.
 
@@ -175,6 +175,17 @@ Definition run_frame_user (codes : list Z) : val :=
 Definition run_frame (code : Z) : val :=
   eL (fun p => eB (declares (kind_of code) p)) [PAlts; PCrits; PObjs; PWts; PMatrix].
 
+(* ---- C13: rational cores of the weighters --------------------------------------------- *)
+Definition run_weight_cores (a : list bool * list (list Q) * bool * bool) : val :=
+  let '(objs, rows, scale, spearman) := a in
+  let m := List.length objs in
+  let raw := cols m rows in
+  (* cells are reduced to lowest terms first (Qred q == q): same values, smaller numerals *)
+  let M := if scale then map (map Qred) (cols m (cenit_matrix objs rows)) else raw in
+  let R := if spearman then map avg_rank M else M in
+  VL [eL eQ (map svar_r raw); eL eQ (map pvar_r M); eL eQ (map pvar_r R); eTable eQ (cov_matrix_r R);
+      eTable eQ (map probs raw)].
+
 Definition dispatch (fn : string) (arg : val) : val :=
   if fn =? "dominance" then with_arg (dP2 (dL dB) dMatrix) run_dominance arg
   else if fn =? "rank" then with_arg (dP2 dB (dL dQ)) run_rank arg
@@ -188,6 +199,7 @@ Definition dispatch (fn : string) (arg : val) : val :=
   else if fn =? "equal_weights" then with_arg (dP2 dQ dN) run_equal_weights arg
   else if fn =? "frame" then with_arg dZ run_frame arg
   else if fn =? "frame_user" then with_arg (dL dZ) run_frame_user arg
+  else if fn =? "weight_cores" then with_arg (dP4 (dL dB) dMatrix dB dB) run_weight_cores arg
   else if fn =? "wsm" then with_arg dDM run_wsm arg
   else if fn =? "ratio" then with_arg dDM run_ratio arg
   else if fn =? "refpoint" then with_arg dDM run_refpoint arg
